@@ -196,7 +196,7 @@ class Engine:
     def shrink(self, pool, case, sigs, b_only):
         """greedy shrink while a failure with one of `sigs` (kind-restricted) persists"""
         best = case
-        deadline = time.time() + 120
+        deadline = time.time() + 90
         improved = True
         rounds = 0
         while improved and time.time() < deadline and rounds < 200:
@@ -208,11 +208,17 @@ class Engine:
                 break
             if not cands:
                 break
-            res = self.run_cases(pool, [("s", c) for c in cands], b_only)
-            for _, c, out in res:
-                if any(f["sig"] in sigs for f in out["fails"]) and len(canon(c)) < len(canon(best)):
-                    best = c
-                    improved = True
+            step = max(16, self.prop.workers * 2)
+            for c0 in range(0, len(cands), step):
+                if time.time() > deadline:
+                    break
+                res = self.run_cases(pool, [("s", c) for c in cands[c0:c0 + step]], b_only)
+                for _, c, out in res:
+                    if any(f["sig"] in sigs for f in out["fails"]) and len(canon(c)) < len(canon(best)):
+                        best = c
+                        improved = True
+                        break
+                if improved:
                     break
         return best
 
@@ -268,7 +274,27 @@ class Engine:
         afails = []    # A / C failures
         infra = []
         with cf.ProcessPoolExecutor(max_workers=p.workers, initializer=_w_init, initargs=(self.modname, use_driver)) as pool:
-            results = self.run_cases(pool, cases)
+            # evaluate in batches so that a tree on which (nearly) every case fails or times out does not
+            # make the check run for hours: stop once enough violating cases are in hand, or when the wall
+            # budget is used up (the evidence then says how many cases were actually evaluated)
+            results = []
+            budget = float(os.environ.get("VERIF_BUDGET_S", "1500" if tier == "quick" else "14400"))
+            bsize = max(256, p.workers * 16, len(cases) // 8 + 1)
+            truncated = None
+            for b0 in range(0, len(cases), bsize):
+                results += self.run_cases(pool, cases[b0:b0 + bsize])
+                nviol = sum(1 for _, _, o in results if any(f["kind"] == "B" and not self.match_known(f) for f in o["fails"]))
+                ntime = sum(1 for _, _, o in results if any(f["kind"] == "T" for f in o["fails"]))
+                if nviol >= 25:
+                    truncated = "stopped after %d of %d cases: %d violating cases already found" % (len(results), len(cases), nviol)
+                    break
+                if ntime >= 10:
+                    truncated = "stopped after %d of %d cases: %d cases timed out" % (len(results), len(cases), ntime)
+                    break
+                if time.time() - self.t0 > budget and b0 + bsize < len(cases):
+                    truncated = "stopped after %d of %d cases: wall budget of %ds used up" % (len(results), len(cases), budget)
+                    break
+            self.truncated = truncated
             for label, case, out in results:
                 stats["evaluations"] += 1
                 for t in out["tags"]:
@@ -383,7 +409,8 @@ class Engine:
                 "input_distribution": dict(sorted(stats["tags"].items())),
                 "disagreements_checked": stats["evaluations"] if use_driver else 0,
                 "known_findings_reobserved": sorted(knownhits),
-                "exhaustive": bool(exhaustive_done),
+                "exhaustive": bool(exhaustive_done) and not getattr(self, "truncated", None),
+                "truncated": getattr(self, "truncated", None),
                 "explanation": "theorems about the Lean model (obligations/discharged, measured from #print axioms) + correspondence model=implementation and direct property monitor on every generated case",
             },
             "assumptions": list(p.assumptions),
